@@ -396,6 +396,13 @@ class Analysis:
             iv, key, tn = self.read(st, rv[1])
             tag = st.tags.get(key) if key else None
             self.write(st, place, iv, tn, tag)
+            # a comparison result held in a named bool local and copied before it is tested (`let fits = a <= b; if !fits ..`)
+            if dk is not None and dk[0] == "l":
+                src_l = op_local(rv[1])
+                if src_l is not None and src_l in self.conds and len(self.body.defs().get(dk[1], [])) == 1 and len(self.body.defs().get(src_l, [])) == 1:
+                    self.conds[dk[1]] = self.conds[src_l]
+                else:
+                    self.conds.pop(dk[1], None)
             if key is not None and dk is not None and iv is not None:
                 # equality: both directions
                 st.ge.add((dk, key))
